@@ -137,6 +137,37 @@ def u_seeds(ctx, u):
     put(5, X.seq(X.oid('1.2.156.10197.6.1.4.2.1'), X.explicit(0, X.octets(b'data'))))
     put(5, X.seq(X.oid('1.2.156.10197.6.1.4.2.2'), X.explicit(0, X.seq(X.integer(1), X.set_(X.seq(X.oid('1.2.156.10197.1.401'))),
         X.seq(X.oid('1.2.156.10197.6.1.4.2.1'), X.explicit(0, X.octets(b'data'))), X.tlv(0xA0, leaf), X.set_()))))
+    # CMS made by the library for real parties: a signer, and a recipient whose private key is the harness's fixed key (so
+    # that opening gets past the recipient lookup into key unwrapping and content decryption)
+    fixed_d = 0x3945208F7B2144B13F36E38AC6D39F95889393692860B51A42FB81EF4DF7C5B8
+    _, rcpt_cert = pki.leaf('rcpt-c06', X.KU_KEY_ENCIPHERMENT, priv=fixed_d)
+    _, other_cert = pki.leaf('other-c06', X.KU_KEY_ENCIPHERMENT)
+    with open(os.path.join(root, 'rcpt.der'), 'wb') as f:
+        f.write(rcpt_cert)
+    try:
+        class _Signer(ctypes.Structure):
+            _fields_ = [('certs', ctypes.c_void_p), ('certs_len', ctypes.c_size_t), ('sign_key', ctypes.c_void_p)]
+        skey, _r = U.key_from_private(ctx, priv)
+        lc = ctx.inbuf(leaf)
+        sg = _Signer(lc.ptr, len(leaf), skey.ptr)
+        rc2 = ctx.inbuf(other_cert + rcpt_cert)
+        rc1 = ctx.inbuf(rcpt_cert)
+        big = ctx.buf(16384)
+        for nm, fn in (('sign', lambda ol: lib.cms_sign(big, ctypes.byref(ol), ctypes.byref(sg), 1, OIDD, content, 17, None, 0)),
+                       ('envelop', lambda ol: lib.cms_envelop(big, ctypes.byref(ol), rc1, len(rcpt_cert), L.get('OID_sm4_cbc', 0), key, 16, iv, 16,
+                                                              OIDD, content, 17, None, 0, None, 0)),
+                       ('envelop2', lambda ol: lib.cms_envelop(big, ctypes.byref(ol), rc2, rc2.n, L.get('OID_sm4_cbc', 0), key, 16, iv, 16,
+                                                               OIDD, content, 17, None, 0, None, 0)),
+                       ('sign_and_envelop', lambda ol: lib.cms_sign_and_envelop(big, ctypes.byref(ol), ctypes.byref(sg), 1, rc2, rc2.n,
+                                                                               L.get('OID_sm4_cbc', 0), key, 16, iv, 16, OIDD, content, 17,
+                                                                               None, 0, None, 0, None, 0))):
+            ol = ctypes.c_size_t(16384)
+            if fn(ol) == 1:
+                put(5, big.raw(ol.value))
+            else:
+                ctx.stat('info_seed_cms_%s_unavailable' % nm)
+    except Exception as e:
+        ctx.stat('info_seed_cms_real_parties_unavailable')
     # 6 keys
     ec = c12.ec_private_key_der(R.i2b(priv), R.pub(priv))
     put(6, ec)
@@ -222,7 +253,11 @@ def u_seeds(ctx, u):
         for fn in sorted(os.listdir(sdir)) if os.path.isdir(sdir) else []:
             with open(os.path.join(sdir, fn), 'rb') as f:
                 data = f.read()
-            for note, m in D.resize_mutants(data):
+            try:
+                extra = [(x.name, x.data) for x in D.mutants(data, limit_per_class=60)]
+            except Exception:
+                extra = []
+            for note, m in D.resize_mutants(data) + extra:
                 if len(m) > 60000:
                     big += 1
                     if big > 60:
@@ -551,6 +586,7 @@ def main(run):
     procs = {}
     env = dict(os.environ)
     env['VF_ANCHOR'] = os.path.join(seeds, 'anchor.pem')
+    env['VF_RCPT'] = os.path.join(seeds, 'rcpt.der')
     env['ASAN_OPTIONS'] = 'detect_leaks=0:allocator_may_return_null=1:abort_on_error=0:exitcode=77:max_allocation_size_mb=256'
     env['UBSAN_OPTIONS'] = 'print_stacktrace=1:halt_on_error=1'
 
@@ -634,13 +670,13 @@ def main(run):
     for t in TARGETS:
         sdir = os.path.join(seeds, 'struct-%d' % t)
         files = [os.path.join(sdir, f) for f in sorted(os.listdir(sdir))] if os.path.isdir(sdir) else []
-        todo = [files[i:i + 400] for i in range(0, len(files), 400)]
+        todo = [files[i:i + 100] for i in range(0, len(files), 100)]
         while todo:
             chunk = todo.pop()
             if not chunk:
                 continue
             try:
-                p = subprocess.run([exes[t], '-timeout=20', '-rss_limit_mb=3000'] + chunk, env=env, stdout=subprocess.PIPE, stderr=subprocess.STDOUT,
+                p = subprocess.run([exes[t], '-timeout=8', '-rss_limit_mb=3000'] + chunk, env=env, stdout=subprocess.PIPE, stderr=subprocess.STDOUT,
                                    timeout=1800, cwd=run.workdir)
             except subprocess.TimeoutExpired:
                 run.violation('C06:hang:structured-replay-%s' % TARGETS[t], {'files': chunk[:3]})
@@ -672,6 +708,8 @@ def main(run):
     run.flavours_used.add('msan')
     env2 = dict(os.environ)
     env2['VF_ANCHOR'] = env['VF_ANCHOR']
+    env2['VF_RCPT'] = env['VF_RCPT']
+    env2['VF_FILE_TIMEOUT'] = '60'
     replayed = 0
     for t in TARGETS:
         logp = os.path.join(run.workdir, 'msan-%d' % t)
@@ -691,6 +729,13 @@ def main(run):
                 continue
             if p.returncode == 0:
                 replayed += len(chunk)
+                continue
+            if p.returncode == 88:
+                hung = [ln[5:] for ln in p.stdout.decode(errors='replace').splitlines() if ln.startswith('HANG ')]
+                run.violation('C06:hang:msan-replay-%s' % TARGETS[t], {'files': hung[:3], 'input_hex': open(hung[0], 'rb').read()[:4096].hex() if hung else ''})
+                rest = chunk[chunk.index(hung[0]) + 1:] if hung and hung[0] in chunk else []
+                replayed += len(chunk) - len(rest)
+                todo.append(rest)
                 continue
             if len(chunk) > 1:
                 mid = len(chunk) // 2
@@ -729,7 +774,7 @@ def main(run):
             cmd = ['valgrind', '-q', '--error-exitcode=79', '--errors-for-leak-kinds=none', '--leak-check=no', '--log-file=' + logp,
                    vex[t]] + files
             try:
-                p = subprocess.run(cmd, env=env2, stdout=subprocess.PIPE, stderr=subprocess.DEVNULL, timeout=3000, cwd=run.workdir)
+                p = subprocess.run(cmd, env=dict(env2, VF_FILE_TIMEOUT='600'), stdout=subprocess.PIPE, stderr=subprocess.DEVNULL, timeout=3000, cwd=run.workdir)
                 return t, files, logp, p.returncode
             except subprocess.TimeoutExpired:
                 return t, files, logp, 'timeout'
@@ -748,6 +793,9 @@ def main(run):
                     continue
                 if rc == 'timeout':
                     run.inconclusive_because('memcheck replay watchdog: target %s' % TARGETS[t])
+                    continue
+                if rc == 88:
+                    run.violation('C06:hang:memcheck-replay-%s' % TARGETS[t], {'files': files[:3]})
                     continue
                 try:
                     text = open(logp, errors='replace').read()
